@@ -49,19 +49,19 @@ pub fn run(prop: &str, leg: &str, ctx: &Ctx, rep: &mut Report) -> bool {
         }
         (_, "cold-child") => cold::child(ctx, rep),
         ("C11", "cold-start") => {
-            cold::parent(ctx, "C11", &["ntt-inverse-first", "ntt-roundtrip-first", "ntt-product-first"], &[2, 4, 8, 16, 32, 64, 64, 128, 256, 512, 1024], ctx.sz(600, 6000), &|_| vec![], rep);
+            cold::parent(ctx, "C11", &["ntt-inverse-first", "ntt-roundtrip-first", "ntt-product-first"], &[2, 4, 8, 16, 32, 64, 64, 128, 256, 512, 1024], ctx.sz(1500, 12000), &|_| vec![], rep);
             rep.require("cold_start_processes", 100);
         }
         ("C13", "cold-start") => {
-            cold::parent(ctx, "C13", &["fft-roundtrip-first", "fft-split-first", "fft-product-first"], &[2, 4, 8, 16, 32, 64, 128, 256, 512, 1024], ctx.sz(600, 6000), &|_| vec![], rep);
+            cold::parent(ctx, "C13", &["fft-roundtrip-first", "fft-split-first", "fft-product-first"], &[2, 4, 8, 16, 32, 64, 128, 256, 512, 1024], ctx.sz(1500, 12000), &|_| vec![], rep);
             rep.require("cold_start_processes", 100);
         }
         ("C14", "cold-start") => {
-            cold::parent(ctx, "C14", &["h2p"], &[0, 1, 8, 42, 135, 136, 200, 1000], ctx.sz(300, 4000), &|_| vec![], rep);
+            cold::parent(ctx, "C14", &["h2p"], &[0, 1, 8, 42, 135, 136, 200, 1000], ctx.sz(1500, 12000), &|_| vec![], rep);
             rep.require("cold_start_processes", 60);
         }
         ("C12", "cold-start") => {
-            cold::parent(ctx, "C12", &["felt-batch"], &[1, 2, 7, 64, 512, 1024], ctx.sz(300, 4000), &|_| vec![], rep);
+            cold::parent(ctx, "C12", &["felt-batch"], &[1, 2, 7, 64, 512, 1024], ctx.sz(1000, 8000), &|_| vec![], rep);
             rep.require("cold_start_processes", 60);
         }
         ("C02", "cold-start") => c02::cold_start(ctx, rep),
